@@ -443,6 +443,13 @@ def slice_(t, lo, hi):
 
 
 def getitem(t, idx):
+    if tag(t) == 'dict' and not is_const(idx) and tag(idx) not in ('phi', 'raise', 'enum') and 0 < len(t[1]) <= 32 \
+            and all(is_const(k) for k, _ in t[1]):
+        # look-up by a symbolic key in a table with constant keys: a case analysis over the keys
+        out = raise_('KeyError')
+        for k, v in reversed(t[1]):
+            out = phi(eq(idx, k), v, out)
+        return out
     if is_const(idx):
         i = idx[1]
         if tag(t) in ('list', 'tuple') and isinstance(i, int):
@@ -811,7 +818,7 @@ def truth(a):
         return a
     if tag(a) in ('list', 'tuple', 'dict'):
         return const(len(a[1]) > 0)
-    if tag(a) in ('obj', 'cls', 'func', 'bound', 'enum', 'ext'):
+    if tag(a) in ('obj', 'cls', 'func', 'bound', 'enum', 'ext', 'closure'):
         return TRUE
     if tag(a) == 'sym' and (sym_meta(a, 'callable') or sym_meta(a, 'cls')):
         return TRUE
@@ -951,13 +958,15 @@ def is_(a, b):
             return const(other[1] is None)
         if t is not None and t != 'none':
             return FALSE
-        if tag(other) in ('obj', 'cls', 'func', 'bound', 'list', 'tuple', 'dict', 'enum'):
+        if tag(other) in ('obj', 'cls', 'func', 'bound', 'list', 'tuple', 'dict', 'enum', 'closure'):
             return FALSE
         return ('op', 'IS', other, NONE)
     if _all_const(a, b):
         return const(a[1] is b[1] or a[1] == b[1])
     if a == b:
         return TRUE
+    if tag(a) in ('cls', 'func', 'ext', 'enum') and tag(b) in ('cls', 'func', 'ext', 'enum'):
+        return FALSE      # two different classes / functions / enum members
     return ('op', 'IS', a, b)
 
 
